@@ -177,6 +177,8 @@ func (s *server) ListenAndServe(config interface{}) error {
 		Handler:    s.sessionsMgr,
 		AcceptPool: s.acceptPool,
 		Metrics:    s.Metrics.Bytes(),
+
+		ConnectTimeout: s.MQTT.Options.ConnectTimeout,
 	}
 
 	switch c := config.(type) {
